@@ -3,6 +3,7 @@ use crate::chess::movegen;
 use crate::chess::movegen::tables;
 use crate::chess::moves::Move;
 use crate::chess::piece::PieceKind;
+use crate::chess::player::Player;
 use crate::engine::eval::Eval;
 
 fn piece_value(kind: PieceKind) -> Eval {
@@ -87,11 +88,20 @@ pub fn see(game: &Game, mv: Move, threshold: Eval) -> bool {
         // we can use
         let mut attacker_sq = None;
         for potential_attacker_kind in PieceKind::ALL {
-            let mut potential_attacker_squares =
+            let potential_attacker_squares =
                 my_attackers & board.pieces_of_kind(potential_attacker_kind, color);
 
             if potential_attacker_squares.any() {
-                attacker_sq = Some(potential_attacker_squares.pop_lsb_inplace().single());
+                // Pick among equal attackers relative to the attacking player, so that the result
+                // does not depend on which colour is making the capture
+                attacker_sq = Some(match color {
+                    Player::White => potential_attacker_squares.lsb().single(),
+                    Player::Black => potential_attacker_squares
+                        .flip_vertically()
+                        .lsb()
+                        .flip_vertically()
+                        .single(),
+                });
                 break;
             }
         }
